@@ -1,6 +1,6 @@
 """C12 -- eager start"""
 from env.scenario import Profile
-from props.common import scenario_harness
+from props.common import scenario_harness, edit_before_run
 from props import oracles as O
 
 TITLE = "eager start: eligible jobs start immediately; a free window slot is never wasted"
@@ -24,6 +24,8 @@ def harnesses(tier):
                 perm="id", top="free"), o + [O.c07_window], sampler=smp, required_notes=("c12_eligible_waiting",)),
             scenario_harness("nested", Profile(
                 templates=("N12", "E3"), window="free", perm="id", crit_job=False, raises="free"), o, sampler=smp),
+            scenario_harness("inspected-and-edited-before-run", Profile(
+                templates=("F4",), crit_job=False, perm="id", top="pure"), o, pre=edit_before_run),
         ]
     return [
         scenario_harness("flat-unwindowed", Profile(
